@@ -1,5 +1,8 @@
-// Harness for C15 (paged iteration). Three tiers, all compared with the Lean model (lean/Model/Paging.lean,
-// lean/Model/PagingHist.lean):
+// Harness for C15 (paged iteration). Four tiers, all compared with the Lean model (lean/Model/Paging.lean,
+// lean/Model/PagingHist.lean, lean/Model/PagingRetry.lean):
+//   - retry tier (retry.go, ops `rsess` / `rsessx`): faults at page fetches x the retry policy's decisions
+//     (policy scripted per attempt, budgets, the real Simple / Downgrading policies), 1..3 nodes; observed:
+//     rows + final error, requests, Query.Attempts() at every RetryPolicy.Attempt call.
 //   - session tier (session.go, ops `sess` / `sessx`): a real gocql.Session runs a paged query against a
 //     scripted in-memory node; observed: rows + final error at the application, requests at the node.
 //   - history tier (hist.go, histgen.go, op `hist`): ONE *gocql.Query object driven through a history of
@@ -140,6 +143,8 @@ func exec(op string) (res string) {
 		return execSess(op)
 	case "hist":
 		return execHist(op)
+	case "rsess", "rsessx":
+		return execRetry(op)
 	}
 	return "bad-op"
 }
@@ -533,6 +538,10 @@ func main() {
 	}
 	extra := sessionTier(r, out, tier)
 	for k, v := range histTier(r, out, tier) {
+		extra[k] = v
+	}
+	// the retry tier draws from the PRNG after every other tier, so their scenarios are what they were
+	for k, v := range retryTier(r, out, tier) {
 		extra[k] = v
 	}
 	out.Close(extra)
